@@ -291,49 +291,70 @@ Proof.
   destruct (beqb s []); reflexivity.
 Qed.
 
-(* the heart of both findings: an empty expected value switches the comparison off *)
-Lemma existsb_verify_str k c l :
-  existsb (fun i => beqb i [] || verify_str k c i) l
-  = bmem [] l || match cget k c with JStr s => bmem s l | _ => false end.
+(* since the fix 8b29193 an empty expected value matches nothing (before it, jwt.WithIssuer("")
+   / jwt.WithSubject("") switched the comparison off) *)
+Lemma existsb_nonempty_verify_str k c l :
+  existsb (fun i => negb (beqb i []) && verify_str k c i) l
+  = match cget k c with JStr s => negb (beqb s []) && bmem s l | _ => false end.
 Proof.
-  rewrite existsb_orb. fold (bmem [] l).
   unfold verify_str, parse_string.
-  destruct (cget k c) as [| s | z | l' | |]; simpl; try (rewrite existsb_false; reflexivity).
-  destruct (beqb s []) eqn:Es.
-  - rewrite existsb_false. apply beqb_eq in Es. subst s.
-    destruct (bmem [] l); reflexivity.
-  - f_equal. unfold bmem. apply existsb_ext'. intro x. apply beqb_sym.
+  destruct (cget k c) as [| s | z | l' | |]; simpl;
+    try (rewrite (existsb_ext' _ (fun _ => false)); [apply existsb_false | intro x; apply andb_false_r]).
+  destruct (beqb s []) eqn:Es; simpl.
+  - rewrite (existsb_ext' _ (fun _ => false)); [apply existsb_false | intro x; apply andb_false_r].
+  - unfold bmem. apply existsb_ext'. intro x. rewrite (beqb_sym x s).
+    destruct (beqb s x) eqn:Ex; [|apply andb_false_r].
+    apply beqb_eq in Ex. subst x. rewrite Es. reflexivity.
 Qed.
 
 Lemma issuers_spec cfg now c :
-  cfg_wf cfg = true ->
   exp_ok now c = true -> time_ok k_nbf now c = true ->
-  existsb (fun i => validate (issuer_validator i) now c) (main_issuer cfg :: issuer_aliases cfg)
-  = iss_ok cfg c || bmem [] (issuer_aliases cfg).
+  existsb (fun i => if beqb i [] then false else validate (issuer_validator i) now c)
+          (main_issuer cfg :: issuer_aliases cfg)
+  = iss_ok cfg c.
 Proof.
-  intros Hwf He Hn.
-  rewrite (existsb_ext' _ _ _ (fun i => validate_issuer i now c)).
-  rewrite existsb_andb_const, (verify_exp_optional now c He), verify_nbf_spec, Hn. rewrite !andb_true_l.
-  rewrite existsb_verify_str. unfold iss_ok.
-  assert (Hm : bmem [] (main_issuer cfg :: issuer_aliases cfg) = bmem [] (issuer_aliases cfg)).
-  { unfold cfg_wf in Hwf. apply andb_true_iff in Hwf as [Hm _]. apply negb_true_iff in Hm.
-    unfold bmem. simpl. rewrite Hm. reflexivity. }
-  rewrite Hm. apply orb_comm.
+  intros He Hn. unfold iss_ok. rewrite <- existsb_nonempty_verify_str.
+  apply existsb_ext'. intro i. rewrite validate_issuer.
+  rewrite (verify_exp_optional now c He), verify_nbf_spec, Hn.
+  destruct (beqb i []); reflexivity.
 Qed.
 
 Lemma subjects_spec cfg now c :
   exp_ok now c = true -> time_ok k_nbf now c = true ->
   match subjects cfg with
   | [] => false
-  | _ => negb (existsb (fun s => validate (subject_validator s) now c) (subjects cfg))
+  | _ => negb (existsb (fun s => if beqb s [] then false else validate (subject_validator s) now c)
+                       (subjects cfg))
   end
-  = negb (sub_ok cfg c || bmem [] (subjects cfg)).
+  = negb (sub_ok cfg c).
 Proof.
   intros He Hn. unfold sub_ok.
   destruct (subjects cfg) as [|s0 ss] eqn:Es; [reflexivity|].
-  rewrite (existsb_ext' _ _ _ (fun s => validate_subject s now c)).
-  rewrite existsb_andb_const, (verify_exp_optional now c He), verify_nbf_spec, Hn. rewrite !andb_true_l.
-  rewrite existsb_verify_str. f_equal. apply orb_comm.
+  f_equal. rewrite <- existsb_nonempty_verify_str.
+  apply existsb_ext'. intro i. rewrite validate_subject.
+  rewrite (verify_exp_optional now c He), verify_nbf_spec, Hn.
+  destruct (beqb i []); reflexivity.
+Qed.
+
+(* without any hypothesis on the configuration: what the audience check implies *)
+Lemma verify_aud_sound cfg c :
+  verify_aud c [audience cfg] = true -> aud_ok cfg c = true.
+Proof.
+  unfold verify_aud, aud_ok, parse_claim_strings.
+  destruct (cget k_aud c) as [| s | z | l | |]; try discriminate.
+  - destruct (beqb s []); [discriminate|]. simpl. rewrite !orb_false_r. rewrite beqb_sym. tauto.
+  - destruct l as [|a l]; [discriminate|]. destruct l as [|b l].
+    + destruct (beqb a []); [discriminate|]. rewrite existsb_bmem_single. tauto.
+    + rewrite existsb_bmem_single. tauto.
+Qed.
+
+Lemma validate_parser_gen cfg now c :
+  validate (parser_validator cfg) now c
+  = exp_ok now c && time_ok k_nbf now c && time_ok k_iat now c && verify_aud c [audience cfg].
+Proof.
+  unfold validate, parser_validator. simpl.
+  rewrite verify_exp_required, verify_nbf_spec, verify_iat_spec.
+  rewrite !andb_true_r. reflexivity.
 Qed.
 
 (* ------------------------------------------------------------------------------------ *)
@@ -357,19 +378,52 @@ Section OidcProofs.
     { unfold cfg_wf in Hwf. apply andb_true_iff in Hwf as [_ Ha]. apply negb_true_iff. exact Ha. }
     unfold decide, validity_of_token. cbn [negb].
     cbv beta iota delta [vy_bearer vy_wellformed vy_alg vy_key vy_sig vy_exp vy_nbf vy_iat vy_aud
-                         vy_iss vy_iss_wild vy_sub vy_sub_wild vy_sub_wf].
+                         vy_iss vy_sub vy_sub_wf].
     rewrite (validate_parser cfg now c Hne).
     destruct (exp_ok now c) eqn:He; [|reflexivity].
     destruct (time_ok k_nbf now c) eqn:Hn; [|reflexivity].
     destruct (time_ok k_iat now c) eqn:Hi; [|reflexivity].
     destruct (aud_ok cfg c) eqn:Ha; [|reflexivity].
-    rewrite (issuers_spec cfg now c Hwf He Hn).
+    rewrite (issuers_spec cfg now c He Hn).
     rewrite (subjects_spec cfg now c He Hn).
     cbn [andb negb].
-    destruct (iss_ok cfg c || bmem [] (issuer_aliases cfg)); [|reflexivity].
-    destruct (sub_ok cfg c || bmem [] (subjects cfg)); [|reflexivity].
+    destruct (iss_ok cfg c); [|reflexivity].
+    destruct (sub_ok cfg c); [|reflexivity].
     unfold sub_wf. simpl.
     destruct (cget k_sub c); reflexivity.
+  Qed.
+
+  (* what an acceptance implies, for EVERY configuration (no hypothesis) *)
+  Lemma oidc_accept_facts cfg now vals p :
+    oidc_authenticate parse_jwt cfg now vals = OAccept p ->
+    exists t c,
+      auth_from_md vals = MdToken t /\
+      parse_jwt t = TokParsed AlgRS256 (KidFound true true) c /\
+      exp_ok now c = true /\ time_ok k_nbf now c = true /\ time_ok k_iat now c = true /\
+      aud_ok cfg c = true /\ iss_ok cfg c = true /\ sub_ok cfg c = true /\ sub_wf c = true.
+  Proof.
+    unfold oidc_authenticate.
+    destruct (auth_from_md vals) as [| | |t]; try discriminate.
+    destruct (parse_jwt t) as [|a k c] eqn:Ep; [discriminate|].
+    destruct a; try discriminate.
+    destruct k as [| | |am ver]; try discriminate.
+    destruct am; [|discriminate]. destruct ver; [|discriminate]. cbn [negb].
+    rewrite validate_parser_gen.
+    destruct (exp_ok now c) eqn:He; [|discriminate].
+    destruct (time_ok k_nbf now c) eqn:Hn; [|discriminate].
+    destruct (time_ok k_iat now c) eqn:Hi; [|discriminate].
+    destruct (verify_aud c [audience cfg]) eqn:Ha; [|discriminate].
+    rewrite (issuers_spec cfg now c He Hn).
+    rewrite (subjects_spec cfg now c He Hn).
+    cbn [andb negb].
+    destruct (iss_ok cfg c) eqn:His; [|discriminate].
+    destruct (sub_ok cfg c) eqn:Hsu; [|discriminate]. cbn [negb].
+    intro Hacc. exists t, c.
+    split; [reflexivity|]. split; [exact Ep|].
+    split; [exact He|]. split; [exact Hn|]. split; [exact Hi|].
+    split; [apply (verify_aud_sound cfg c Ha)|].
+    split; [exact His|]. split; [exact Hsu|].
+    unfold sub_wf. destruct (cget k_sub c); try discriminate; reflexivity.
   Qed.
 
   (* the principal handed to the request context when the token is accepted *)
@@ -443,6 +497,7 @@ End OidcProofs.
 
 (* ------------------------------------------------------------------------------------ *)
 (* reading the record: each boolean field is the claim the property text talks about    *)
+(* (an empty string names nothing: neither as a claim value nor as a configured entry)  *)
 
 Definition exp_valid (now : Z) (c : claims) : Prop :=
   exists e, cget k_exp c = JNum e /\ e <> 0%Z /\ (now < e)%Z.
@@ -455,10 +510,10 @@ Definition aud_names (cfg : oidc_cfg) (c : claims) : Prop :=
   exists l, cget k_aud c = JStrs l /\ In (audience cfg) l.
 
 Definition iss_names (cfg : oidc_cfg) (c : claims) : Prop :=
-  exists s, cget k_iss c = JStr s /\ In s (main_issuer cfg :: issuer_aliases cfg).
+  exists s, cget k_iss c = JStr s /\ s <> [] /\ In s (main_issuer cfg :: issuer_aliases cfg).
 
 Definition sub_allowed (cfg : oidc_cfg) (c : claims) : Prop :=
-  subjects cfg = [] \/ exists s, cget k_sub c = JStr s /\ In s (subjects cfg).
+  subjects cfg = [] \/ exists s, cget k_sub c = JStr s /\ s <> [] /\ In s (subjects cfg).
 
 Definition sub_wellformed (c : claims) : Prop :=
   cget k_sub c = JAbsent \/ exists s, cget k_sub c = JStr s.
@@ -498,9 +553,9 @@ Lemma iss_ok_iff cfg c : iss_ok cfg c = true <-> iss_names cfg c.
 Proof.
   unfold iss_ok, iss_names. destruct (cget k_iss c) as [| s | z | l | |];
     try (split; [discriminate | intros [s' [Hx _]]; discriminate]).
-  rewrite bmem_In. split.
-  - intro Hin. exists s. auto.
-  - intros [s' [Hx Hin]]. inversion Hx; subst. exact Hin.
+  rewrite andb_true_iff, negb_true_iff, beqb_neq, bmem_In. split.
+  - intros [Hne Hin]. exists s. auto.
+  - intros [s' [Hx [Hne Hin]]]. inversion Hx; subst. auto.
 Qed.
 
 Lemma sub_ok_iff cfg c : sub_ok cfg c = true <-> sub_allowed cfg c.
@@ -509,9 +564,9 @@ Proof.
   - split; [left; reflexivity | reflexivity].
   - destruct (cget k_sub c) as [| s | z | l | |];
       try (split; [discriminate | intros [Hx | [s' [Hx _]]]; discriminate]).
-    rewrite bmem_In. split.
-    + intro Hin. right. exists s. auto.
-    + intros [Hx | [s' [Hx Hin]]]; [discriminate|]. inversion Hx; subst. exact Hin.
+    rewrite andb_true_iff, negb_true_iff, beqb_neq, bmem_In. split.
+    + intros [Hne Hin]. right. exists s. auto.
+    + intros [Hx | [s' [Hx [Hne Hin]]]]; [discriminate|]. inversion Hx; subst. auto.
 Qed.
 
 Lemma sub_wf_iff c : sub_wf c = true <-> sub_wellformed c.
@@ -534,17 +589,14 @@ Definition oidc_property (parse_jwt : bytes -> token) (cfg : oidc_cfg) (now : Z)
     exp_valid now c /\ not_in_future k_iat now c /\ aud_names cfg c /\
     iss_names cfg c /\ sub_allowed cfg c.
 
-(* what the code decides, over concrete claims *)
+(* what the code decides, over concrete claims: the property text plus two conditions *)
 Definition oidc_code_accepts (parse_jwt : bytes -> token) (cfg : oidc_cfg) (now : Z)
            (vals : list bytes) : Prop :=
   exists t c,
     auth_from_md vals = MdToken t /\
     parse_jwt t = TokParsed AlgRS256 (KidFound true true) c /\
     exp_valid now c /\ not_in_future k_nbf now c /\ not_in_future k_iat now c /\
-    aud_names cfg c /\
-    (iss_names cfg c \/ In [] (issuer_aliases cfg)) /\
-    (sub_allowed cfg c \/ In [] (subjects cfg)) /\
-    sub_wellformed c.
+    aud_names cfg c /\ iss_names cfg c /\ sub_allowed cfg c /\ sub_wellformed c.
 
 Section OidcProperty.
   Variable parse_jwt : bytes -> token.
@@ -560,9 +612,9 @@ Section OidcProperty.
       rewrite Ep in Hy. discriminate.
     - unfold decide, validity_of_token.
       cbv beta iota delta [vy_bearer vy_wellformed vy_alg vy_key vy_sig vy_exp vy_nbf vy_iat vy_aud
-                           vy_iss vy_iss_wild vy_sub vy_sub_wild vy_sub_wf].
-      rewrite !andb_true_iff, !orb_true_iff.
-      rewrite exp_ok_iff, !time_ok_iff, aud_ok_iff, iss_ok_iff, sub_ok_iff, sub_wf_iff, !bmem_In.
+                           vy_iss vy_sub vy_sub_wf].
+      rewrite !andb_true_iff.
+      rewrite exp_ok_iff, !time_ok_iff, aud_ok_iff, iss_ok_iff, sub_ok_iff, sub_wf_iff.
       split.
       + intros [[[[[[[[[[[_ _] Ha] Hk] Hs] He] Hn] Hi] Hau] His] Hsu] Hwf].
         exists t, c. destruct a; try discriminate.
@@ -585,7 +637,7 @@ Section OidcProperty.
       rewrite Ep in Hy. discriminate.
     - unfold property_literal, validity_of_token.
       cbv beta iota delta [vy_bearer vy_wellformed vy_alg vy_key vy_sig vy_exp vy_nbf vy_iat vy_aud
-                           vy_iss vy_iss_wild vy_sub vy_sub_wild vy_sub_wf].
+                           vy_iss vy_sub vy_sub_wf].
       rewrite !andb_true_iff.
       rewrite exp_ok_iff, time_ok_iff, aud_ok_iff, iss_ok_iff, sub_ok_iff.
       split.
@@ -617,21 +669,20 @@ Section OidcProperty.
     - split; [intros [p Hp]; discriminate | discriminate].
   Qed.
 
-  (* soundness w.r.t. the property text: needs the configuration to be free of empty
-     alias / subject entries *)
-  Theorem oidc_sound_partial cfg now vals :
-    cfg_wf cfg = true -> no_empty_entries cfg = true ->
+  (* soundness w.r.t. the property text, full strength: EVERY configuration (also those the
+     constructor would refuse), every clock value, header list and token *)
+  Theorem oidc_sound cfg now vals :
     (exists p, oidc_authenticate parse_jwt cfg now vals = OAccept p) ->
     oidc_property parse_jwt cfg now vals.
   Proof.
-    intros Hwf Hne Hacc. apply (oidc_accept_iff cfg now vals Hwf) in Hacc.
-    unfold no_empty_entries in Hne. apply andb_true_iff in Hne as [Ha Hs].
-    apply negb_true_iff in Ha. apply negb_true_iff in Hs.
-    apply bmem_false in Ha. apply bmem_false in Hs.
-    destruct Hacc as [t [c [Hx [Hy [He [Hn [Hi [Hau [His [Hsu Hwf']]]]]]]]]].
-    exists t, c. repeat split; auto.
-    - destruct His as [His | His]; [exact His | contradiction].
-    - destruct Hsu as [Hsu | Hsu]; [exact Hsu | contradiction].
+    intros [p Hacc].
+    destruct (oidc_accept_facts parse_jwt cfg now vals p Hacc)
+      as [t [c [Hx [Hy [He [Hn [Hi [Hau [His [Hsu Hwf]]]]]]]]]].
+    exists t, c. split; [exact Hx|]. split; [exact Hy|].
+    split; [apply exp_ok_iff; exact He|].
+    split; [apply time_ok_iff; exact Hi|].
+    split; [apply aud_ok_iff; exact Hau|].
+    split; [apply iss_ok_iff; exact His | apply sub_ok_iff; exact Hsu].
   Qed.
 
   (* completeness w.r.t. the property text: needs the two extra conditions the code imposes
@@ -650,31 +701,24 @@ Section OidcProperty.
     exists t, c. repeat split; auto.
   Qed.
 
-  (* both together: on well-configured servers and tokens without nbf-in-the-future /
-     non-string sub, accepted exactly when the property text says so *)
+  (* both together: on tokens without nbf-in-the-future / non-string sub, accepted exactly
+     when the property text says so *)
   Theorem oidc_exact_partial cfg now vals :
-    cfg_wf cfg = true -> no_empty_entries cfg = true ->
+    cfg_wf cfg = true ->
     extra_ok (validity_of parse_jwt cfg now vals) = true ->
     (accepted (oidc_authenticate parse_jwt cfg now vals)
      = property_literal (validity_of parse_jwt cfg now vals)).
   Proof.
-    intros Hwf Hne Hex. rewrite (oidc_decision_table parse_jwt cfg now vals Hwf).
-    unfold no_empty_entries in Hne. apply andb_true_iff in Hne as [Ha Hs].
-    apply negb_true_iff in Ha. apply negb_true_iff in Hs.
+    intros Hwf Hex. rewrite (oidc_decision_table parse_jwt cfg now vals Hwf).
     unfold extra_ok in Hex. apply andb_true_iff in Hex as [Hn Hw].
-    unfold decide, property_literal.
-    unfold validity_of in *.
-    destruct (auth_from_md vals) as [| | |t]; try reflexivity.
-    destruct (parse_jwt t) as [|a k c]; [reflexivity|].
-    unfold validity_of_token in *.
-    cbv beta iota delta [vy_bearer vy_wellformed vy_alg vy_key vy_sig vy_exp vy_nbf vy_iat vy_aud
-                         vy_iss vy_iss_wild vy_sub vy_sub_wild vy_sub_wf] in *.
-    rewrite Ha, Hs, Hn, Hw. rewrite !orb_false_r, !andb_true_r. reflexivity.
+    unfold decide, property_literal. rewrite Hn, Hw.
+    destruct (vy_bearer _), (vy_wellformed _), (vy_alg _), (vy_key _), (vy_sig _), (vy_exp _),
+      (vy_iat _), (vy_aud _), (vy_iss _), (vy_sub _); reflexivity.
   Qed.
 End OidcProperty.
 
 (* ------------------------------------------------------------------------------------ *)
-(* witnesses: the full-strength statements are false for the code as it is               *)
+(* witnesses                                                                             *)
 
 Definition s_main : bytes := [109].            (* "m" *)
 Definition s_aud : bytes := [97].              (* "a" *)
@@ -692,35 +736,31 @@ Definition w_cfg (aliases subs : list bytes) : oidc_cfg :=
   {| main_issuer := s_main; issuer_aliases := aliases; audience := s_aud;
      subjects := subs; client_id_claims := [k_azp; k_client_id] |}.
 
-(* an empty string among the issuer aliases: a token from any issuer is accepted *)
-Theorem oidc_sound_refuted_empty_alias :
-  exists parse cfg now vals,
-    cfg_wf cfg = true /\
-    accepted (oidc_authenticate parse cfg now vals) = true /\
-    property_literal (validity_of parse cfg now vals) = false /\
-    flag_empty_alias (validity_of parse cfg now vals) = true.
-Proof.
-  exists (w_parse (w_claims (JStr s_evil) JAbsent [])), (w_cfg [[]] []), 1000%Z, (hdr [120]).
-  vm_compute. auto.
-Qed.
+(* regression examples for the two repaired findings (8b29193): an empty alias / subject entry
+   matches nothing.  Before the fix both tokens were accepted. *)
+Example ex_empty_alias_matches_nothing :
+  oidc_authenticate (w_parse (w_claims (JStr s_evil) JAbsent [])) (w_cfg [[]] []) 1000%Z (hdr [120])
+  = OInvalid RIssuer /\
+  oidc_authenticate (w_parse (w_claims (JStr []) JAbsent [])) (w_cfg [[]] []) 1000%Z (hdr [120])
+  = OInvalid RIssuer /\
+  oidc_authenticate (w_parse (w_claims JAbsent JAbsent [])) (w_cfg [[]] []) 1000%Z (hdr [120])
+  = OInvalid RIssuer.
+Proof. vm_compute. auto. Qed.
 
-(* an empty string among the configured subjects: any subject (or none) is accepted *)
-Theorem oidc_sound_refuted_empty_subject :
-  exists parse cfg now vals,
-    cfg_wf cfg = true /\
-    accepted (oidc_authenticate parse cfg now vals) = true /\
-    property_literal (validity_of parse cfg now vals) = false /\
-    flag_empty_subject (validity_of parse cfg now vals) = true.
-Proof.
-  exists (w_parse (w_claims (JStr s_main) (JStr s_evil) [])), (w_cfg [] [s_alice; []]), 1000%Z,
-         (hdr [120]).
-  vm_compute. auto.
-Qed.
+Example ex_empty_subject_matches_nothing :
+  oidc_authenticate (w_parse (w_claims (JStr s_main) (JStr s_evil) [])) (w_cfg [] [s_alice; []])
+                    1000%Z (hdr [120])
+  = OInvalid RSubject /\
+  oidc_authenticate (w_parse (w_claims (JStr s_main) JAbsent [])) (w_cfg [] [[]]) 1000%Z (hdr [120])
+  = OInvalid RSubject /\
+  accepted (oidc_authenticate (w_parse (w_claims (JStr s_main) (JStr s_alice) []))
+                              (w_cfg [] [s_alice; []]) 1000%Z (hdr [120])) = true.
+Proof. vm_compute. auto. Qed.
 
 (* the code is stricter than the text in two places: nbf in the future, non-string sub *)
 Theorem oidc_complete_refuted_nbf :
   exists parse cfg now vals,
-    cfg_wf cfg = true /\ no_empty_entries cfg = true /\
+    cfg_wf cfg = true /\
     property_literal (validity_of parse cfg now vals) = true /\
     accepted (oidc_authenticate parse cfg now vals) = false.
 Proof.
@@ -731,7 +771,7 @@ Qed.
 
 Theorem oidc_complete_refuted_sub_type :
   exists parse cfg now vals,
-    cfg_wf cfg = true /\ no_empty_entries cfg = true /\
+    cfg_wf cfg = true /\
     property_literal (validity_of parse cfg now vals) = true /\
     accepted (oidc_authenticate parse cfg now vals) = false.
 Proof.
@@ -739,23 +779,14 @@ Proof.
   vm_compute. auto.
 Qed.
 
-(* the flags are exactly the ways in which acceptance can go beyond the property text *)
-Theorem flags_complete v :
-  decide v = true -> property_literal v = false ->
-  flag_empty_alias v = true \/ flag_empty_subject v = true.
+(* the constructor guarantees cfg_wf *)
+Theorem oidc_new_wf main aliases aud subs cic cfg :
+  oidc_new main aliases aud subs cic = Some cfg -> cfg_wf cfg = true.
 Proof.
-  unfold decide, property_literal, flag_empty_alias, flag_empty_subject, decide.
-  destruct v as [b w a k s e n i au is iw su sw wf]; simpl.
-  destruct b, w, a, k, s, e, n, i, au, is, iw, su, sw, wf; simpl; intros; try discriminate; auto.
-Qed.
-
-Theorem flags_sound v :
-  (flag_empty_alias v = true -> vy_iss_wild v = true /\ vy_iss v = false) /\
-  (flag_empty_subject v = true -> vy_sub_wild v = true /\ vy_sub v = false).
-Proof.
-  unfold flag_empty_alias, flag_empty_subject, decide.
-  destruct v as [b w a k s e n i au is iw su sw wf]; simpl.
-  destruct b, w, a, k, s, e, n, i, au, is, iw, su, sw, wf; simpl; split; intros; try discriminate; auto.
+  unfold oidc_new, cfg_wf.
+  destruct (beqb main []) eqn:Em; [discriminate|].
+  destruct (beqb aud []) eqn:Ea; [discriminate|].
+  intro Hc. inversion Hc; subst; simpl. rewrite Em, Ea. reflexivity.
 Qed.
 
 (* ------------------------------------------------------------------------------------ *)
@@ -819,7 +850,7 @@ Example ex_expired :
                     (w_cfg [] [s_alice]) 2000%Z (hdr [120]) = OInvalid RClaims.
 Proof. vm_compute. reflexivity. Qed.
 
-Example ex_cfg_wf : cfg_wf (w_cfg [] [s_alice]) = true /\ no_empty_entries (w_cfg [] [s_alice]) = true.
+Example ex_cfg_wf : cfg_wf (w_cfg [] [s_alice]) = true.
 Proof. vm_compute. auto. Qed.
 
 Example ex_header_case :
